@@ -291,6 +291,29 @@ func (r *Registry) prelude() string {
 	for _, a := range r.axioms {
 		b.WriteString(a + "\n")
 	}
+	// case mapping of literals that contain no upper-case (resp. lower-case) ASCII letter
+	if _, ok := r.funs["str_lower"]; ok {
+		for _, s := range r.strLitOrder {
+			if s == strings.ToLower(s) && isASCII(s) {
+				fmt.Fprintf(&b, "(assert (= (str_lower %s) %s))\n", r.strLits[s], r.strLits[s])
+			} else if isASCII(s) {
+				if n, ok := r.strLits[strings.ToLower(s)]; ok {
+					fmt.Fprintf(&b, "(assert (= (str_lower %s) %s))\n", r.strLits[s], n)
+				}
+			}
+		}
+	}
+	if _, ok := r.funs["str_upper"]; ok {
+		for _, s := range r.strLitOrder {
+			if s == strings.ToUpper(s) && isASCII(s) {
+				fmt.Fprintf(&b, "(assert (= (str_upper %s) %s))\n", r.strLits[s], r.strLits[s])
+			} else if isASCII(s) {
+				if n, ok := r.strLits[strings.ToUpper(s)]; ok {
+					fmt.Fprintf(&b, "(assert (= (str_upper %s) %s))\n", r.strLits[s], n)
+				}
+			}
+		}
+	}
 	return b.String()
 }
 
@@ -483,4 +506,13 @@ func goDiv(a, b string) string {
 
 func goRem(a, b string) string {
 	return fmt.Sprintf("(- %s (* %s %s))", a, b, goDiv(a, b))
+}
+
+func isASCII(s string) bool {
+	for i := 0; i < len(s); i++ {
+		if s[i] >= 0x80 {
+			return false
+		}
+	}
+	return true
 }
